@@ -14,6 +14,12 @@ res() { echo "$1"; }
 git apply "$src/patch.diff" || { echo "APPLY-FAIL"; git -C /repo worktree remove --force $wt; exit 2; }
 go build ./... > $wt/.build.log 2>&1; b=$?
 go test -vet=off -count=1 ./... > $wt/.test.log 2>&1; t=$?
+if [ $t -ne 0 ]; then
+  # the repository has a few timing-sensitive tests: re-run the failing packages once before concluding
+  pk=$(grep -E '^(FAIL|---)' $wt/.test.log | grep -E '^FAIL\s' | awk '{print $2}' | sort -u | tr '\n' ' ')
+  mkdir -p /verif/.work; cp $wt/.test.log /verif/.work/vseed_${id}_test.log
+  if [ -n "$pk" ]; then go test -vet=off -count=1 $pk > $wt/.test2.log 2>&1; t=$?; cp $wt/.test2.log /verif/.work/vseed_${id}_test2.log; fi
+fi
 cp "$src/demo_test.go" "$pkg/zz_seed_demo_test.go"
 go test -vet=off -count=1 -run "$rx" "./$pkg" > $wt/.demo_with.log 2>&1; dw=$?
 git apply -R "$src/patch.diff"
